@@ -503,6 +503,36 @@ def random_seq(rng, n):
     return [0] * rng.randint(0, 1)
 
 
+def revisit_case(rng):
+    """A history on a small complete graph with wide windows and neutral demands, so that a route revisiting a customer
+    fails ONLY the 'no customer twice' clause; the repeated customer is written once by name and once by index (or twice
+    the same way), and the otherwise identical route without the repeat is offered too."""
+    k = rng.randint(2, 3)
+    names = NAMES[:k + 1]
+    ops = [("node", "D", 0, 0, INF)] + [("node", nm, 0, 0, INF) for nm in names[1:]]
+    for a in names:
+        for b in names:
+            if a != b:
+                ops.append(("arc", a, b, rng.randint(0, 1), rng.randint(0, 3)))
+    order = rng.sample(range(1, k + 1), k)
+    rep_at = rng.randrange(len(order))
+    seq = [0] + order + [order[rep_at]] + [0]                    # ... the customer at rep_at comes back at the end
+    for _ in range(3):
+        route = []
+        for pos, i in enumerate(seq):
+            route.append(names[i] if rng.random() < 0.5 else i)
+        first = 1 + rep_at
+        if rng.random() < 0.7:                                    # the two occurrences in different notations
+            route[first] = names[seq[first]]
+            route[-2] = seq[-2]
+            if rng.random() < 0.5:
+                route[first], route[-2] = seq[first], names[seq[-2]]
+        ops.append((rng.choice(["route", "check"]), route))
+    ops.append(("route", [0] + order + [0]))
+    ops.append(("query", [1]))
+    return 5, 2, ops, [0] + order + [0]
+
+
 def gen_case(rng, kind):
     """One history: build the instance, then 1-12 route operations with queries and (sometimes)
     customers and arcs appended in between."""
@@ -804,7 +834,11 @@ def run(ctx):
     seen = set()
     for k in range(n_cases):
         kind = KINDS[k % len(KINDS)]
-        cap, init, ops, primary = gen_case(rng, kind)
+        if k % 13 == 12:
+            kind = "revisit_mixed_notation"
+            cap, init, ops, primary = revisit_case(rng)
+        else:
+            cap, init, ops, primary = gen_case(rng, kind)
         kinds[kind] = kinds.get(kind, 0) + 1
         msg = oracle(cap, init, ops)
         if msg:
